@@ -59,7 +59,8 @@ func TestC13(t *testing.T) {
 	rec := kit.Get("C13")
 	rapid.Check(t, func(t *rapid.T) {
 		o := genOptions(t, rec)
-		big := pct(t, "big", map[bool]int{true: 8, false: 3}[thorough()])
+		genExtraOptions(t, &o, false)
+		big := pct(t, "big", map[bool]int{true: 8, false: 5}[thorough()])
 		if big {
 			// crossing 65,535 needs the default / u16 limit (or wider) to be interesting
 			o.Dict = rapid.SampledFrom([]string{"", "u32", "u16", "none"}).Draw(t, "bigdict")
